@@ -123,14 +123,15 @@ def shard(args):
 
 
 def run(tier, seed):
-    shards = [(k, r, tier) for k in clients.KINDS for r in REQS]
+    reqs = REQS if tier == 'quick' else REQS + ['read-write-registers', 'write-coils', 'write-registers', 'device-information']
+    shards = [(k, r, tier) for k in clients.KINDS for r in reqs]
     acc = par.run_shards(shard, shards)
     return dict(acc=acc, level=LEVEL,
                 coverage=dict(
                     rule='one case = one complete execution (history of environment choices) of the real client; non-trivial = distinct executions '
                          'with at least one deviation from the healthy run',
-                    bounds='all executions with <= %d deviations; retries 0..3 x retry_on_empty x retry_on_invalid x backoff {0.3, 0.05}; 6 client kinds x 4 request '
-                           'classes; plus the retry contract scripts (j <= retries empty/foreign replies then a valid one)' % (2 if tier == 'quick' else 3),
+                    bounds='all executions with <= %d deviations; retries 0..3 x retry_on_empty x retry_on_invalid x backoff {0.3, 0.05}; 6 client kinds x %d request '
+                           'classes; plus the retry contract scripts (j <= retries empty/foreign replies then a valid one)' % (2 if tier == 'quick' else 3, 4 if tier == 'quick' else 8),
                     executions=acc.n.get('executions', 0), choice_points=acc.n.get('choice_points', 0)),
                 assumptions=['virtual clock: every time() call advances 10 ms, sleep(d) advances d; a serial read blocks until its timeout',
                              'horizon 60000 clock calls / 200000 transport operations per execution = "hang"',
